@@ -131,6 +131,27 @@ Proof.
       * intros kv' Hin. apply Hall. right. exact Hin.
 Qed.
 
+Lemma bool_eq_iff (a b : bool) : (a = true -> b = true) -> (b = true -> a = true) -> a = b.
+Proof. destruct a, b; intros H1 H2; try reflexivity; [symmetry; apply H1; reflexivity|apply H2; reflexivity]. Qed.
+
+(* ---------- descriptors ---------- *)
+Lemma fields_eqb_eq f1 f2 : fields_eqb f1 f2 = true <-> f1 = f2.
+Proof.
+  unfold fields_eqb. rewrite all2_Forall2. split.
+  - induction 1 as [|[t1 n1] [t2 n2] l1 l2 Hab _ IH]; [reflexivity|]. cbn in Hab.
+    apply andb_prop in Hab. destruct Hab as [Ht Hn]. apply String.eqb_eq in Ht. apply String.eqb_eq in Hn.
+    subst. reflexivity.
+  - intros <-. induction f1 as [|[t n] l IH]; constructor; [|exact IH]. cbn. rewrite !String.eqb_refl. reflexivity.
+Qed.
+
+Lemma fields_eqb_refl f : fields_eqb f f = true.
+Proof. apply fields_eqb_eq. reflexivity. Qed.
+
+Lemma fields_eqb_sym f1 f2 : fields_eqb f1 f2 = fields_eqb f2 f1.
+Proof.
+  apply bool_eq_iff; intros Hx; apply fields_eqb_eq in Hx; subst; apply fields_eqb_refl.
+Qed.
+
 (* ---------- kept / fused variants ---------- *)
 Section WithFacts.
 Variable F : facts.
@@ -213,7 +234,7 @@ Proof.
     rewrite Nat.eqb_refl. cbn. apply all_dict_spec. intros kv Hin. exists (snd kv). split.
     + apply lookup_nodup_in; [apply nodupb_NoDup; exact Hnd|exact Hin].
     + rewrite Forall_forall in H0. apply H0; [exact Hin|]. exact (forallb_In _ _ _ Hall Hin).
-  - cbn [wf] in Hwf. rewrite String.eqb_refl, Z.eqb_refl. cbn. rewrite all2_kept_eq.
+  - cbn [wf] in Hwf. rewrite String.eqb_refl, Z.eqb_refl, fields_eqb_refl, orb_true_r. cbn. rewrite all2_kept_eq.
     apply all2_refl. intros x Hin. apply kept_In in Hin. rewrite Forall_forall in H0.
     apply H0; [exact Hin|]. exact (forallb_In _ _ _ Hwf Hin).
   - cbn [wf] in Hwf. rewrite String.eqb_refl. cbn. apply all2_refl. intros x Hin.
@@ -248,9 +269,6 @@ Proof.
     subst w. rewrite <- (Hfg kv (snd kw) Hin1); [exact Hf|]. apply in_map. exact Hin2.
 Qed.
 
-Lemma bool_eq_iff (a b : bool) : (a = true -> b = true) -> (b = true -> a = true) -> a = b.
-Proof. destruct a, b; intros H1 H2; try reflexivity; [symmetry; apply H1; reflexivity|apply H2; reflexivity]. Qed.
-
 Lemma py_eq_sym : forall a, wf a = true -> forall y, wf y = true ->
   forall il ir, py_eq F H il ir a y = py_eq F H ir il y a.
 Proof.
@@ -276,7 +294,7 @@ Proof.
       apply in_map_iff in Hv. destruct Hv as [kv [Hv Hin]]. subst v. symmetry. apply Hfg; [exact Hin|].
       apply in_map. exact Hinw.
   - (* record *) cbn [py_eq wf] in *. rewrite !all2_kept_eq.
-    rewrite (String.eqb_sym name n), (Z.eqb_sym (H n f) (H name fields)). f_equal.
+    rewrite (String.eqb_sym name n), (Z.eqb_sym (H n f) (H name fields)), (fields_eqb_sym f fields). f_equal.
     apply all2_sym. intros x y Hx Hy. apply kept_In in Hx. apply kept_In in Hy. rewrite Forall_forall in H0.
     apply H0; [exact Hx|exact (forallb_In _ _ _ Hwa Hx)|exact (forallb_In _ _ _ Hwb Hy)].
   - (* grouped *) cbn [py_eq wf] in *. rewrite (String.eqb_sym name n). f_equal.
@@ -287,10 +305,11 @@ Qed.
 (* ---------- what == decides ---------- *)
 Lemma py_eq_rec_spec il ir n1 f1 v1 n2 f2 v2 :
   py_eq F H il ir (PRec n1 f1 v1) (PRec n2 f2 v2) = true <->
-  (n1 = n2 /\ H n1 f1 = H n2 f2) /\
+  (n1 = n2 /\ H n1 f1 = H n2 f2 /\ (f_eq_descriptors F = true -> f1 = f2)) /\
   Forall2 (fun a b => py_eq F H il ir a b = true) (kept F il (slots F f1) v1) (kept F ir (slots F f2) v2).
 Proof.
-  cbn [py_eq]. rewrite all2_kept_eq, !andb_true_iff, String.eqb_eq, Z.eqb_eq, all2_Forall2. tauto.
+  cbn [py_eq]. rewrite all2_kept_eq, !andb_true_iff, String.eqb_eq, Z.eqb_eq, all2_Forall2, orb_true_iff, fields_eqb_eq.
+  destruct (f_eq_descriptors F); cbn; intuition congruence.
 Qed.
 
 Lemma py_eq_grp_spec il ir n1 m1 n2 m2 :
@@ -371,7 +390,7 @@ Proof.
     + cbn. rewrite String.eqb_refl, andb_true_r. cbn. rewrite Forall_forall in H0.
       apply (H0 kv Hin (forallb_In _ _ _ Hw1 Hin) w); [|exact Hf].
       exact (forallb_In (fun kv => wf (snd kv)) _ _ Hw2 Hl).
-  - rewrite !key_rec. apply py_eq_rec_spec in Heq. destruct Heq as [[Hn Hh] Hvals].
+  - rewrite !key_rec. apply py_eq_rec_spec in Heq. destruct Heq as [[Hn [Hh _]] Hvals].
     apply all2_Forall2 in Hvals. cbn [py_eq all2 wf] in *. subst name. rewrite String.eqb_refl. cbn.
     rewrite Hh, Z.eqb_refl. cbn. rewrite andb_true_r. revert Hvals. apply all2_map. intros x y Hx Hy Hxy.
     apply kept_In in Hx. apply kept_In in Hy. rewrite Forall_forall in H0.
@@ -389,7 +408,7 @@ Lemma facts_ok_inv :
   f_eq_ign_left F = true /\ f_eq_ign_right F = true /\ f_eq_isinstance_guard F = true /\ f_ne_default F = true /\
   f_hash_ign F = true /\ f_hash_deep F = true /\ f_hash_dict_unordered F = true /\
   f_skip_before_append F = true /\ f_grp_accepts F = true /\ f_grp_forwards F = true /\ f_ctx_finally F = true /\
-  f_hashable_defined F = true.
+  f_hashable_defined F = true /\ f_eq_descriptors F = true.
 Proof.
   pose proof Fok as K. unfold facts_ok in K. repeat (apply andb_prop in K; destruct K as [K ?]).
   repeat split; assumption.
@@ -422,24 +441,30 @@ Proof.
   destruct (rec_eq_total ign a b) as [x Hx]. exists x. split; [exact Hx|]. unfold rec_ne. rewrite Hx, E4. reflexivity.
 Qed.
 
+(* two plain records are equal exactly when they have the same descriptor (name and fields) and their kept
+   values are pairwise equal *)
 Theorem rec_eq_spec ign n1 f1 v1 n2 f2 v2 :
   rec_eq F H ign (PRec n1 f1 v1) (PRec n2 f2 v2) = Some true <->
-  (n1 = n2 /\ H n1 f1 = H n2 f2) /\
+  (n1, f1) = (n2, f2) /\
   Forall2 (fun a b => py_eq F H ign ign a b = true) (kept F ign (slots F f1) v1) (kept F ign (slots F f2) v2).
 Proof.
-  rewrite rec_eq_unfold by reflexivity. rewrite <- py_eq_rec_spec. split; [intros Hx; inversion Hx; reflexivity|intros ->; reflexivity].
+  destruct facts_ok_inv as (_ & _ & _ & _ & _ & _ & _ & _ & _ & _ & _ & _ & E13).
+  rewrite rec_eq_unfold by reflexivity.
+  assert (Hs : Some (py_eq F H ign ign (PRec n1 f1 v1) (PRec n2 f2 v2)) = Some true <->
+               py_eq F H ign ign (PRec n1 f1 v1) (PRec n2 f2 v2) = true).
+  { split; [intros Hx; inversion Hx; reflexivity|intros ->; reflexivity]. }
+  rewrite Hs, py_eq_rec_spec. split.
+  - intros [[Hn [_ Hf]] Hv]. split; [|exact Hv]. rewrite Hn, (Hf E13). reflexivity.
+  - intros [Hd Hv]. inversion Hd; subst. split; [repeat split|exact Hv].
 Qed.
 
-(* ... which is "same descriptor" whenever the hash separates the two descriptors at hand *)
-Theorem rec_eq_spec_descriptor ign n1 f1 v1 n2 f2 v2 :
-  (H n1 f1 = H n2 f2 -> n1 = n2 -> f1 = f2) ->
-  (rec_eq F H ign (PRec n1 f1 v1) (PRec n2 f2 v2) = Some true <->
-   (n1, f1) = (n2, f2) /\
-   Forall2 (fun a b => py_eq F H ign ign a b = true) (kept F ign (slots F f1) v1) (kept F ign (slots F f2) v2)).
+(* records of different descriptors are unequal, whatever the descriptor hash does (in particular when the two
+   descriptors share their identifier) and whatever their values *)
+Theorem distinct_descriptors_unequal ign n1 f1 v1 n2 f2 v2 : (n1, f1) <> (n2, f2) ->
+  rec_eq F H ign (PRec n1 f1 v1) (PRec n2 f2 v2) = Some false.
 Proof.
-  intros Hinj. rewrite rec_eq_spec. split.
-  - intros [[Hn Hh] Hv]. split; [|exact Hv]. rewrite (Hinj Hh Hn), Hn. reflexivity.
-  - intros [Hd Hv]. inversion Hd; subst. split; [split; reflexivity|exact Hv].
+  intros Hne. destruct (rec_eq_total ign (PRec n1 f1 v1) (PRec n2 f2 v2)) as [[|] Hx]; [|exact Hx].
+  apply rec_eq_spec in Hx. destruct Hx as [Hd _]. contradiction.
 Qed.
 
 Lemma members_eq ign m1 m2 : forallb is_record m2 = true ->
@@ -484,7 +509,7 @@ Variable Hs : pval -> Z.
 
 Lemma rec_hash_unfold ign r : wf r = true -> rec_hash F H Hs ign r = Some (Hs (key ign r)).
 Proof.
-  destruct facts_ok_inv as (_ & _ & _ & _ & _ & _ & _ & _ & E9 & _ & _ & E12).
+  destruct facts_ok_inv as (_ & _ & _ & _ & _ & _ & _ & _ & E9 & _ & _ & E12 & _).
   intros Hw. unfold rec_hash. rewrite E9, E12, andb_false_r. cbn. rewrite hkey_key, key_frozen by exact Hw. reflexivity.
 Qed.
 
@@ -513,32 +538,3 @@ Proof.
 Qed.
 
 End WithFacts.
-
-(* ---------- "same descriptor" versus "same identifier" ---------- *)
-(* the hash input is a plain concatenation, so it does not separate all descriptors, whatever the digest:
-   RecordDescriptor("t/c", [("stringlist","a"),("string","b")]) and
-   RecordDescriptor("t/c", [("string","a"),("string","listb")]) share their identifier, and two records of
-   them with the same packed values compare equal *)
-Definition coll_fields_1 : list (string * string) := [("stringlist", "a"); ("string", "b")]%string.
-Definition coll_fields_2 : list (string * string) := [("string", "a"); ("string", "listb")]%string.
-Definition coll_vals : list pval :=
-  [PNone; PStr "79"; PNone; PNone; PDt 63713433600000000 0 0 false; PInt 1].
-Lemma hash_input_collides : hash_input "t/c" coll_fields_1 = hash_input "t/c" coll_fields_2.
-Proof. reflexivity. Qed.
-
-Lemma Forall2_refl {A} (R : A -> A -> Prop) l : (forall x, In x l -> R x x) -> Forall2 R l l.
-Proof. induction l as [|x t IH]; intros Hx; constructor; [apply Hx; left; reflexivity|apply IH; intros; apply Hx; right; assumption]. Qed.
-
-Theorem identifier_coincidence F (Fok : facts_ok F = true) (sha : string -> Z) :
-  let H := fun n f => sha (hash_input n f) in
-  coll_fields_1 <> coll_fields_2 /\
-  rec_eq F H [] (PRec "t/c" coll_fields_1 coll_vals) (PRec "t/c" coll_fields_2 coll_vals) = Some true.
-Proof.
-  intros H. split; [discriminate|].
-  apply (rec_eq_spec F H Fok). split.
-  - split; [reflexivity|]. unfold H. rewrite hash_input_collides. reflexivity.
-  - assert (E : kept F [] (slots F coll_fields_1) coll_vals = kept F [] (slots F coll_fields_2) coll_vals).
-    { rewrite !kept_nil. unfold slots. rewrite !app_length. reflexivity. }
-    rewrite E. apply Forall2_refl. intros x Hin. apply py_eq_refl. apply kept_In in Hin.
-    cbn in Hin. repeat (destruct Hin as [<-|Hin]; [reflexivity|]). contradiction.
-Qed.
